@@ -31,6 +31,8 @@ BUILDS = {
     "main": (["build", "--release", "--offline"], {}, "release/sv"),
     "plain": (["build", "--profile", "plain", "--offline"], {}, "plain/sv"),
     "nopar": (["build", "--release", "--offline", "--no-default-features"], {}, "release/sv"),
+    # shred's `nightly` feature selects the ptr_metadata implementation of the meta table
+    "nightlymeta": (["+nightly", "build", "--release", "--offline", "--features", "shred-nightly"], {}, "release/sv"),
     "tsan": (["+nightly", "build", "--release", "--offline", "-Zbuild-std", "--target", "x86_64-unknown-linux-gnu"],
              {"RUSTFLAGS": "-Zsanitizer=thread -Cunsafe-allow-abi-mismatch=sanitizer", "CARGO_PROFILE_RELEASE_OPT_LEVEL": "1"},
              "x86_64-unknown-linux-gnu/release/sv"),
